@@ -51,6 +51,7 @@ func main() {
 	max := flag.Int("max", 0, "stop after this many variants (0 = no limit); exit status 3 means more remain")
 	fixtures := flag.String("fixtures", "", "fixture battery: directory with <property>/<name>.patch files (first line `# expect: <keys…>|silent`); prints selfcheck lines")
 	fixProps := flag.String("fixture-props", "", "comma separated property ids whose fixtures to run (default all)")
+	evalPatches := flag.String("eval-patches", "", "comma separated patch files: evaluate every property's rules on each patched variant; JSON lines on stdout")
 	flag.Parse()
 	if os.Getenv("GOMAXPROCS") == "" {
 		os.Setenv("GOMAXPROCS", "4")
@@ -58,6 +59,9 @@ func main() {
 	}
 	if *fixtures != "" {
 		os.Exit(runFixtures(*repo, *fixtures, *fixProps, *knownPath))
+	}
+	if *evalPatches != "" {
+		os.Exit(runEvalPatches(*repo, strings.Split(*evalPatches, ","), *knownPath))
 	}
 	var muts []mutant
 	b, err := os.ReadFile(filepath.Join(*mdir, "mutants.json"))
@@ -397,4 +401,81 @@ func fixtureOverlay(repo, patch string) (map[string][]byte, string, error) {
 		ov[f] = nb
 	}
 	return ov, expect, nil
+}
+
+// runEvalPatches evaluates all properties on each patched variant (used for seeded changes).
+func runEvalPatches(repo string, patches []string, knownPath string) int {
+	known, err := eng.LoadKnown(knownPath)
+	if err != nil {
+		fatal(err)
+	}
+	base, err := eng.LoadBase(repo, "")
+	if err != nil {
+		fatal(err)
+	}
+	props := map[string]bool{}
+	for _, r := range rules.All() {
+		props[r.Prop] = true
+	}
+	var ids []string
+	for p := range props {
+		ids = append(ids, p)
+	}
+	sort.Strings(ids)
+	for _, pf := range patches {
+		out := map[string]any{"patch": pf}
+		ov, _, err := fixtureOverlay(repo, pf)
+		if err != nil {
+			out["error"] = "patch does not apply to the current tree: " + err.Error()
+			jb, _ := json.Marshal(out)
+			fmt.Println(string(jb))
+			continue
+		}
+		func() {
+			defer func() {
+				if p := recover(); p != nil {
+					out["error"] = fmt.Sprint("panic: ", p)
+				}
+				rules.ResetCaches()
+				debug.FreeOSMemory()
+			}()
+			c, err := base.Variant(ov)
+			if err != nil {
+				out["error"] = clip(err.Error(), 400)
+				return
+			}
+			c.Tier = "quick"
+			cache := map[string]eng.RuleResult{}
+			var by []string
+			fired := map[string]bool{}
+			for _, p := range ids {
+				var rrs []eng.RuleResult
+				for _, r := range rules.RulesFor(p) {
+					rr, ok := cache[r.ID]
+					if !ok {
+						rr = eng.RunRule(c, r)
+						cache[r.ID] = rr
+					}
+					rrs = append(rrs, rr)
+				}
+				pr := eng.Summarise(p, rrs, known)
+				if len(pr.Violations) > 0 {
+					by = append(by, p)
+					for _, o := range pr.Violations {
+						fired[o.Key] = true
+					}
+				}
+			}
+			var keys []string
+			for k := range fired {
+				keys = append(keys, k)
+			}
+			sort.Strings(keys)
+			out["detected_by"] = by
+			out["obligations"] = keys
+		}()
+		jb, _ := json.Marshal(out)
+		fmt.Println(string(jb))
+	}
+	return 0
 }
